@@ -54,6 +54,11 @@ checks.update({
    technique="explicit-state BFS over operation sequences on two colliding DMaps on real members; two independent reference models plus byte-level isolation and white-box Destroy oracles",
    text="All sequences up to depth 3 (quick) / 4 (thorough) of Put, Delete, Incr, Lock, Expire, Destroy, Scan, tick, eviction on two DMaps whose names and keys collide (\"ab\"+\"c\" vs \"a\"+\"bc\", identical keys, \"x\" vs \"dmap.x\"), N in 1..3, R in 1..2, entry EO/EN/CC: each DMap reads per its own model from every member, an operation on one never changes a stored byte of the other, after Destroy no copy or fragment of that DMap exists anywhere and it is usable again.",
    note="client Scan only through the cluster client (EmbeddedDMap.Scan opens a real TCP client)"),
+
+ "C13": dict(cat="model_checking", engine="clustermc", ref="6 C13",
+   technique="explicit-state BFS over membership events on real members with a harness-driven membership layer; routing-table validity oracle on every stabilised state, on every member and through a cluster client",
+   text="All sequences up to depth 3 (quick) / 4 (thorough) of {join, graceful leave, crash+detection, crash+restart before detection of the oldest (coordinator) / youngest / a middle member, re-join under the same address} from 1-3 initial members, R in 1..3, P in {7,13}, with and without stored data; after each event the cluster is stabilised and: all members and a cluster client hold the same table, every primary owner is live, the current backups are min(R,N)-1 distinct live non-primary members, further listed owners are live and hold data, no departed id is listed, nobody exceeds ceil(P/N*LoadFactor), the coordinator is the oldest member everywhere, keys map to one owner.",
+   note="membership events come from the fake discovery layer (overlay replacement of 3 files of internal/discovery); its conformance to real memberlist is not yet replayed in this round: traces_validated_against_impl=0"),
 })
 not_applicable = {}
 all_ids = ["C%02d" % i for i in range(1, 21)]
@@ -74,7 +79,7 @@ m = {
    {"name": "kvmc", "path": "harness/kvmc", "serves_properties": ["C11", "C12", "C20"], "kind_free_text": "explicit-state BFS over the real storage engine"},
    {"name": "schedmc", "path": "harness/schedmc", "serves_properties": ["C01", "C07", "C08"], "kind_free_text": "stateless schedule exploration (preemption bounded DFS) of real members under a cooperative scheduler"},
    {"name": "faultgrid", "path": "harness/checks", "serves_properties": ["C05", "C06", "C15"], "kind_free_text": "exhaustive enumeration of finite configuration / fault / layout grids, one fresh real cluster per case"},
-   {"name": "clustermc", "path": "harness/clustermc", "serves_properties": ["C04", "C09", "C10", "C19"], "kind_free_text": "explicit-state BFS over event sequences on a simulated cluster of real members (path replay)"},
+   {"name": "clustermc", "path": "harness/clustermc", "serves_properties": ["C04", "C09", "C10", "C13", "C19"], "kind_free_text": "explicit-state BFS over event sequences on a simulated cluster of real members (path replay)"},
  ],
  "checks": [],
  "not_applicable": [{"property_id": k, "reason": v} for k, v in sorted(not_applicable.items())],
